@@ -139,11 +139,17 @@ pub fn build(p: P) -> Scenario<Arc<CS>> {
         });
     }
     let prop = p.prop;
+    let pp_name = p.name;
     let finish = move |s: Arc<CS>, e: &mut Exec| -> Result<u64, String> {
         // single-threaded drain, then drop the channel
         let mut n = 0;
         let mut drain_panic: Option<String> = None;
+        // scenarios named *_nodrain drop the channel with whatever is still inside
+        let nodrain = pp_name.ends_with("_nodrain");
         loop {
+            if nodrain {
+                break;
+            }
             let r = std::panic::catch_unwind(std::panic::AssertUnwindSafe(|| do_recv(&s.ch)));
             match r {
                 Ok(true) => {
@@ -173,6 +179,19 @@ pub fn build(p: P) -> Scenario<Arc<CS>> {
                 return Err(m);
             }
         }
+        if nodrain {
+            // values left inside are not "discarded": only the drop accounting is judged here
+            check_drops()?;
+            if let Some(m) = panicked {
+                return Err(m);
+            }
+            let mut h: u64 = 0xcbf29ce484222325;
+            for ev in e.log.iter().filter(|ev| ev.tag == "recv_ret") {
+                h ^= ev.a.wrapping_add(0x9e3779b97f4a7c15);
+                h = h.wrapping_mul(0x100000001b3);
+            }
+            return Ok(h);
+        }
         // the history oracles (C06 / C07) judge what happened up to the panic as well
         match check_log(&e.log, prop) {
             Err(m) => Err(m),
@@ -184,13 +203,25 @@ pub fn build(p: P) -> Scenario<Arc<CS>> {
     };
     Scenario {
         name: p.name.to_string(),
-        opts: Opts { stale_reads: p.stale, stale_depth: 3, max_spurious: p.spurious, horizon: 20_000, log_ops: false, log_handler_ops: false, reduce: false, no_discipline: false, nest_value_t1: 0, post_points: true, no_race_check: p.prop == "C08", start_points: false },
+        opts: Opts { stale_reads: p.stale, stale_depth: 3, max_spurious: p.spurious, horizon: 20_000, log_ops: false, log_handler_ops: false, reduce: false, no_discipline: false, nest_value_t1: 0, post_points: true, no_race_check: p.prop == "C08", start_points: false, endurance: 0 },
         signals: vec![libc::SIGUSR1],
         setup: Box::new(setup),
         threads,
         finish: Box::new(finish),
         monitor: None,
     }
+}
+
+/// C07: exactly-once drops
+fn check_drops() -> Result<(), String> {
+    for id in 0..256usize {
+        let c = CREATED[id].load(Ordering::SeqCst);
+        let d = DROPS[id].load(Ordering::SeqCst);
+        if c == 1 && d != 1 {
+            return Err(format!("C07: value {:#x} dropped {} times after the channel was dropped (leak / double drop)", id, d));
+        }
+    }
+    Ok(())
 }
 
 struct Val {
@@ -356,14 +387,7 @@ fn check_log(log: &[Ev], _prop: &str) -> Result<u64, String> {
             }
         }
     }
-    // C07: exactly-once drops
-    for id in 0..256usize {
-        let c = CREATED[id].load(Ordering::SeqCst);
-        let d = DROPS[id].load(Ordering::SeqCst);
-        if c == 1 && d != 1 {
-            return Err(format!("C07: value {:#x} dropped {} times after the channel was dropped (leak / double drop)", id, d));
-        }
-    }
+    check_drops()?;
     // digest: receive results per thread in order + discards
     let mut h: u64 = 0xcbf29ce484222325;
     let mut mix = |x: u64| {
@@ -413,6 +437,11 @@ pub fn scenarios(prop: &str, tier: Tier) -> Vec<Item> {
     v.push(item(build(p("nested_in_send", (1, 3), &[2], &[1], &[1], 1, false, 0)), Some(if q { 3 } else { 4 }), "a send in a signal handler interrupts a send (every boundary)"));
     v.push(item(build(p("nested_in_recv", (2, 2), &[1], &[2], &[2], 1, false, 0)), Some(if q { 3 } else { 4 }), "a send in a signal handler interrupts a recv (every boundary)"));
     v.push(item(build(p("nested_twice_full", (4, 4), &[1], &[2], &[1, 2], 2, false, 1)), Some(if q { 3 } else { 4 }), "up to 2 nested sends on either thread near full, 1 spurious failure"));
+    // the channel is dropped while values are still inside, after its cells have been recycled
+    if prop == "C07" {
+    v.push(item(build(p("p1x2_c1x2_rot_nodrain", (2, 1), &[2], &[2], &[], 0, false, 0)), Some(if q { 3 } else { 4 }), "rotated start (2 round trips, 1 value left), 2 sends vs 2 recvs, then the channel is dropped with the rest inside: every value dropped exactly once"));
+    v.push(item(build(p("nested_rot_nodrain", (1, 1), &[1], &[2], &[1, 2], 1, false, 0)), Some(if q { 3 } else { 4 }), "as above with a nested send on either thread; dropped non-empty"));
+    }
     // two consumers
     v.push(item(build(p("p1x2_c2", (0, 1), &[2], &[1, 1], &[], 0, false, 0)), Some(if q { 3 } else { 4 }), "two consumers (MPMC mode)"));
     if !q {
